@@ -67,6 +67,25 @@ func runC25(c *Ctx) {
 		})
 	}}
 	idx0 := Cmp("idx==0", anyVal, token.EQL, VConstInt(0))
+	// the same test written on args[0] directly
+	inListAt0 := Atom{Name: "ListContains(nonRootAllowed,args[0])", Match: func(cd Cond) Pol {
+		return cd.BoolIs(func(v ssa.Value) bool {
+			ci, _, ok := CallResult(v)
+			if !ok || !ToFn(listContains)(ci) {
+				return false
+			}
+			a := ci.Common().Args
+			if !VGlobal(gNonRoot)(a[0]) {
+				return false
+			}
+			ld, ok := Strip(a[1]).(*ssa.UnOp)
+			if !ok || ld.Op != token.MUL {
+				return false
+			}
+			ia, ok := ld.X.(*ssa.IndexAddr)
+			return ok && VParam(allowedFn, 1)(ia.X) && VConstInt(0)(ia.Index)
+		})
+	}}
 	isH := Cmp(`arg=="-h"`, arg, token.EQL, VConstStr("-h"))
 	isHelp := Cmp(`arg=="--help"`, arg, token.EQL, VConstStr("--help"))
 	n := 0
@@ -80,8 +99,8 @@ func runC25(c *Ctx) {
 			continue
 		}
 		c.GuardedFlow(fmt.Sprintf("ctlcmd.isAllowedToRun#return-true#%d", n), allowedFn, lf, []Clause{
-			{uid0, inList, isH, isHelp},
-			{uid0, idx0, isH, isHelp},
+			{uid0, inList, inListAt0, isH, isHelp},
+			{uid0, idx0, inListAt0, isH, isHelp},
 		}, nil)
 	}
 	// terminator
@@ -157,7 +176,7 @@ func runC25(c *Ctx) {
 		for _, r := range *fa.Referrers() {
 			if _, ok := r.(*ssa.UnOp); ok {
 				loads++
-				if fa.Parent() != run {
+				if fa.Parent() != run && !P.PrivateHelperOf(fa.Parent(), map[string]bool{SSAFuncName(run): true}) {
 					bad += " loaded in " + SSAFuncName(fa.Parent()) + " at " + P.Pos(r.Pos()) + ";"
 				}
 			}
